@@ -258,7 +258,8 @@ def gen_call(rng, kind, name, sig_names, variant=0):
         a = [0, rng.choice(USERS + ROLES)] if rng.random() < 0.6 else [1, rng.choice(ROLES if grouping else (DOMS if kind == "dom" else OBJS))]
     elif n in ("get_filtered_named_policy", "get_filtered_named_grouping_policy", "remove_filtered_named_policy",
                "remove_filtered_named_grouping_policy"):
-        a = [pt, 0, rng.choice(USERS + ROLES)]
+        a = [pt, 0, rng.choice(USERS + ROLES)] if rng.random() < 0.6 else \
+            [pt, 1, rng.choice(ROLES if grouping else (DOMS if kind == "dom" else OBJS))]
     elif n in ("get_named_policy", "get_all_named_subjects", "get_all_named_objects", "get_all_named_actions"):
         a = ["p"]
     elif n in ("get_named_grouping_policy", "get_all_named_roles", "get_named_role_manager"):
@@ -353,7 +354,12 @@ def do_call(target, spec, kind, plain):
     try:
         if m == "_auto_load_policy":
             if plain:
-                return target.load_policy()
+                # one iteration of the auto-load loop on the plain enforcer: load_policy, errors only logged
+                try:
+                    target.load_policy()
+                except Exception:  # noqa: BLE001
+                    pass
+                return None
             return run_auto_load_body(target)
         if m == "build_incremental_role_links" and plain:
             # what the wrapper is documented to do, on the plain enforcer
@@ -404,8 +410,8 @@ def canon(v, depth=0):
         return round(v, 6)
     if isinstance(v, (list, tuple)):
         l = [canon(x, depth + 1) for x in v]
-        if l and all(isinstance(x, str) for x in l):
-            return sorted(l)          # flat name lists come from sets in places
+        if depth == 0 and l and all(isinstance(x, str) for x in l):
+            return sorted(l)          # a RESULT that is a flat list of names comes from a set in places; rules (nested) keep their order
         return l
     if isinstance(v, (set, frozenset)):
         return sorted(json.dumps(canon(x, depth + 1), sort_keys=True, default=str) for x in v)
@@ -554,12 +560,12 @@ class Recorder:
                 setattr(rec.real, name, value)
 
         se._e = Proxy()
-        if bracket:
-            for name in dir(self.lock):
-                f = getattr(self.lock, name)
-                if name.startswith("_") or name.startswith("gen_") or not callable(f):
-                    continue
-                setattr(self.lock, name, self._wrap_lock(name, f))
+        self.acq = {}               # call key -> names of the lock's acquire methods that returned during the call
+        for name in dir(self.lock):
+            f = getattr(self.lock, name)
+            if name.startswith("_") or name.startswith("gen_") or not callable(f):
+                continue
+            setattr(self.lock, name, self._wrap_lock(name, f))
 
     def lock_state(self):
         return bool(getattr(self.lock, "_writer_active", None)), int(getattr(self.lock, "_active_readers", -1))
@@ -568,14 +574,24 @@ class Recorder:
         rec = self
 
         def g(*a, **k):
-            before = rec.lock_state()
-            if "release" in name:
-                rec.segments.append(("before " + name, before, jd(snapshot(rec.real))))
+            if rec.bracket and "release" in name:
+                rec.segments.append(("before " + name, rec.lock_state(), jd(snapshot(rec.real))))
             r = f(*a, **k)
             if "release" not in name:
-                rec.segments.append(("after " + name, rec.lock_state(), jd(snapshot(rec.real))))
+                rec.acq.setdefault(rec.key(), []).append(name)
+                if rec.bracket:
+                    rec.segments.append(("after " + name, rec.lock_state(), jd(snapshot(rec.real))))
             return r
         return g
+
+    def holds_enough(self, key, cls):
+        """did the call `key` acquire a lock strong enough for a method of class cls?"""
+        names = self.acq.get(key, [])
+        if cls == "write":
+            return any("write" in n for n in names)
+        if cls == "read":
+            return bool(names)
+        return True
 
     def key(self):
         return getattr(self.cur, "key", None)
@@ -801,13 +817,33 @@ def run_single(tabs, kind, pre, spec):
 
 
 # ----------------------------------------------------------------------------- (iv) controlled concurrent runs
+class patched_rw:
+    """module.RLock / module.Condition replaced by the cooperative doubles of harness/sched.py while a
+    SyncedEnforcer (and its RWLockWrite) is constructed; restored on exit (same as sched.patched)"""
+
+    def __init__(self, module):
+        self.module, self.saved = module, {}
+
+    def __enter__(self):
+        for n, v in (("RLock", sched.CoopRLock), ("Condition", sched.CoopCondition)):
+            if hasattr(self.module, n):
+                self.saved[n] = getattr(self.module, n)
+                setattr(self.module, n, v)
+        return self.module
+
+    def __exit__(self, *a):
+        for n, v in self.saved.items():
+            setattr(self.module, n, v)
+        return False
+
+
 class SyncedRun:
     """one run of thread programs on a real SyncedEnforcer under the controlled scheduler"""
 
     def __init__(self, kind, progs, yields=True, step_timeout=30.0):
         import casbin.util.rwlock as rwmod
         self.kind, self.progs, self.yields = kind, progs, yields
-        with sched.patched(rwmod):
+        with patched_rw(rwmod):
             self.se = build(kind, synced=True)
             self.ylocks = [sched.CoopRLock() for _ in progs]
         self.rec = Recorder(self.se)
@@ -837,6 +873,7 @@ class SyncedRun:
         res.events = [list(e) for e in self.rec.events]
         res.rets = dict(self.rets)
         res.touches = list(self.rec.touches)
+        res.acq = {k: list(v) for k, v in self.rec.acq.items()}
         res.final = observe_final(self.rec.real, self.kind) if res.status == "ok" else None
         res.lock = [self.se._rwlock._active_readers, self.se._rwlock._waiting_writers, self.se._rwlock._writer_active]
         return res
@@ -890,7 +927,7 @@ class ConcJudge:
 
     def fail(self, what, kind, progs, res, impl, expected):
         size = (sum(len(p) for p in progs), len(progs), len(res.schedule))
-        key = what.split(" touches ")[0][:80] if what.startswith("lock discipline") else what.split(":")[0][:60]
+        key = what.split(" takes a too weak lock")[0][:80] if what.startswith("lock discipline") else what.split(":")[0][:60]
         if key not in self.fails or size < self.fails[key][0]:
             case = dict(check="schedule", kind=kind, progs=progs, schedule=list(res.schedule), events=describe(progs, res.events))
             self.fails[key] = (size, case, impl, expected, what)
@@ -927,7 +964,7 @@ class ConcJudge:
             if bad:
                 j = bad[0]
                 ev = res.events[j] if j < len(res.events) else None
-                self.fail("lock discipline: " + explain_refusal(self.tabs, progs, res.events, j), kind, progs, res,
+                self.fail("lock discipline: " + explain_refusal(self.tabs, progs, res.events, j, res.touches, res.acq), kind, progs, res,
                           dict(refused_event_index=j, refused_event=describe(progs, [ev])[0] if ev else None,
                                lock_at_touches=[[list(k) if k else None, a, wa, ar] for (k, a, wa, ar) in res.touches][:12]),
                           "the readers-writer machine with the REQUIRED lock modes accepts the observed events "
@@ -992,22 +1029,33 @@ def describe(progs, events):
     return out
 
 
-def explain_refusal(tabs, progs, events, j):
+def explain_refusal(tabs, progs, events, j, touches=(), acq=None):
+    """text for a refused Enter; starts with the call that took a too weak lock (the refused call itself if it did not
+    acquire a lock strong enough for its class, else the call that is inside)"""
     if j >= len(events):
         return "event refused"
     k, t, i = events[j]
     m = progs[t][i]["m"]
-    inside = []
     ent = {}
     for (k2, t2, i2) in events[:j]:
         if k2 == 1:
             ent[(t2, i2)] = True
         elif k2 == 2:
             ent.pop((t2, i2), None)
-    for (t2, i2) in ent:
-        inside.append(f"{progs[t2][i2]['m']} ({tabs.cls(progs[t2][i2]['m'])}, thread {t2})")
-    return (f"{m} ({tabs.cls(m)}) touches the wrapped enforcer while {', '.join(inside) or 'nobody'} "
-            f"is still inside its section")
+    inside = [f"{progs[t2][i2]['m']} ({tabs.cls(progs[t2][i2]['m'])}, thread {t2})" for (t2, i2) in ent]
+    st = next(((wa, ar) for (key, attr, wa, ar) in touches if key == (t, i) and attr.rstrip("=") not in Recorder.BENIGN), None)
+    names = (acq or {}).get((t, i), [])
+    need = tabs.cls(m)
+    enough = any("write" in n for n in names) if need == "write" else (bool(names) if need == "read" else True)
+    culprit = m
+    if enough and ent:
+        weak = [progs[t2][i2]["m"] for (t2, i2) in ent
+                if not (any("write" in n for n in (acq or {}).get((t2, i2), [])) if tabs.cls(progs[t2][i2]["m"]) == "write"
+                        else bool((acq or {}).get((t2, i2), [])) or tabs.cls(progs[t2][i2]["m"]) == "pure")]
+        culprit = weak[0] if weak else m
+    return (f"{culprit} takes a too weak lock: {m} ({need}, acquired {names or 'no lock'}) touches the wrapped enforcer"
+            f"{'' if st is None else ' (_writer_active=%s, _active_readers=%s)' % st} while "
+            f"{', '.join(inside) or 'nobody'} is still inside its section")
 
 
 def explore_program(chk, judge, kind, progs, yields, deadline, max_runs, stats, label, pruned=False):
@@ -1322,7 +1370,7 @@ def report_all(chk):
     if len(chk.spec_failures) <= 1:
         return
     base = dict(property=chk.prop, seed=chk.seed, tier=chk.tier, **chk.repo_state())
-    for rec in chk.spec_failures[1:]:
+    for rec in chk.spec_failures[1:25]:
         path = chk.write_replay(dict(base, kind="failing-input", **rec))
         print(f"  failing input: {rec['what']}")
         print(f"VIOLATION property={chk.prop} replay={path}")
